@@ -38,7 +38,7 @@ func forProp(prop string, g func(*bufio.Writer, uint64, string, string)) genFunc
 }
 
 func init() {
-	for _, p := range []string{"C01", "C02", "C03", "C05", "C08", "C11"} {
+	for _, p := range []string{"C01", "C02", "C03", "C08", "C11"} {
 		gens[p] = append(gens[p], forProp(p, pe.Gen))
 	}
 }
